@@ -16,6 +16,7 @@ Decided (structural necessary conditions; networkx's search itself is trusted):
  Rm memo          : every memoisation construct in the functions behind this property is keyed by everything it reads.
  Rp presence      : optional numeric fields are tested with `is None` / membership, never by truthiness (0 is a value).
  R6 group constraints: in a disjunction group the scan of a combination stops early only after a STRICT failure.
+ R7 same request  : compare_reqs compares the same attribute of both requests (route lists and LOOSE/STRICT flags included).
 """
 import ast
 
@@ -349,6 +350,14 @@ def r6_group_constraints(ctx):
     ctx.need('R6.group-constraints', 3)
 
 
+def r7_same_request(ctx):
+    """R7: requests that differ in their route constraints (nodes, LOOSE / STRICT flags) are never merged: compare_reqs compares
+    the same attribute on both sides (shared with C19-R8)"""
+    from .common import compare_pairs_rule
+    compare_pairs_rule(ctx, 'R7.same-request', 'a STRICT request would be merged with its LOOSE twin and routed (or blocked) as the other one')
+    ctx.need('R7.same-request', 15)
+
+
 from ..memo import rule_for as _memo_rule
 
 RULES_MEMO = ('Rm.memo', _memo_rule('C11', 'a route computed for another request or topology would be returned'))
@@ -359,4 +368,4 @@ from ..presence import rule_for as _presence_rule
 RULES_PRESENCE = ('Rp.presence', _presence_rule('C11', 'a legal zero would be read as missing'))
 
 RULES = [('R1.metric', r1_metric), ('R2.outcomes', r2_outcomes), ('R3.reasons', r3_reasons), ('R4.route-lists', r4_route_lists),
-         ('R5.helpers', r5_helpers), RULES_MEMO, RULES_PRESENCE, ('R6.group-constraints', r6_group_constraints)]
+         ('R5.helpers', r5_helpers), RULES_MEMO, RULES_PRESENCE, ('R6.group-constraints', r6_group_constraints), ('R7.same-request', r7_same_request)]
